@@ -1067,13 +1067,23 @@ impl Gen {
     pub fn macro_funding_shock(&mut self, h: &mut History, r: &mut Report) {
         let v = self.pick_vamm(h);
         let rounds = self.rng.range(1, 4);
-        for _ in 0..rounds {
+        // a vAMM that is re-opened at an arbitrary second gets a funding schedule that is not aligned to the hour;
+        // the first settlement after that (often made exactly on time below) is where the half-period buffer decides
+        let mut reopened = false;
+        if h.last.vamms[v].open && self.rng.chance(1, 4) {
+            let owner = h.last.vamms[v].owner.clone();
+            h.step(Op::Vamm { sender: owner.clone(), vamm: v, msg: vm::ExecuteMsg::SetOpen { open: false } }, r);
+            h.step(Op::Vamm { sender: owner, vamm: v, msg: vm::ExecuteMsg::SetOpen { open: true } }, r);
+            reopened = true;
+        }
+        for round in 0..rounds {
             let spot = h.last.vamms[v].spot.max(1);
             let f = *self.rng.pick(&[50u128, 80, 95, 99, 100, 101, 105, 125, 200]);
             self.oracle(h, r, spot * f / 100);
             let nft = h.last.vamms[v].next_funding_time;
             let now = h.last.time;
-            let s = if nft > now { nft - now + self.rng.range(0, 3) } else { self.rng.range(0, 100) };
+            let late = if reopened && round == 0 && self.rng.chance(2, 3) { 0 } else { self.rng.range(0, 3) };
+            let s = if nft > now { nft - now + late } else { self.rng.range(0, 100) };
             // move in two hops so the TWAP window contains several snapshots
             self.advance(h, r, (s / 12).max(1), s / 2);
             if self.rng.chance(1, 2) {
